@@ -192,6 +192,13 @@ fn compare_formats(p: &Parts, key: &J, aud: Option<&str>, nonce: Option<&str>) -
         ("json", "json (kb_jwt member omitted when absent)", p.to_json_styled(false, false)),
         ("json", "json with an extra unknown member", p.to_json_styled(true, true)),
     ];
+    let mut variants = variants;
+    if p.kb.is_none() {
+        // compact cannot distinguish "no KB-JWT" from an empty one: JSON kb_jwt "" must behave alike
+        let mut q = p.clone();
+        q.kb = Some(String::new());
+        variants.push(("json", "json (kb_jwt is the empty string)", q.to_json_styled(true, false)));
+    }
     let mut results: Vec<(String, Out<J>)> = Vec::new();
     for (format, label, text) in &variants {
         results.push((label.to_string(), sut::verify_with(text, key, aud, nonce, format)));
